@@ -4,8 +4,9 @@
      [cells]            the filtered complex in the filtration order the implementation exposes: per simplex its dimension,
                         the keys (positions) of its facets in the order of boundary_simplex_range, its filtration value;
      [valid cells]      facets come earlier and have one dimension less, an edge has two facets;
-     [pcoh F cells flag m]   the algorithm model of compute_persistent_cohomology(m) with persistence_dim_max = flag over the
-                        coefficient structure F ([zp_ops p] = Field_Zp, [mf_ops primes] = Multi_field): the content of
+     [pcoh_gen sw F cells flag m]   the algorithm model of compute_persistent_cohomology(m) with persistence_dim_max = flag
+                        (sw = false on a Simplex_tree, [pcoh]; sw = true on a Hasse / cubical complex, whose endpoints() come in
+                        the other order) over the coefficient structure F ([zp_ops p] = Field_Zp, [mf_ops primes] = Multi_field): the content of
                         persistent_pairs_ as (birth key, death key | None, characteristic);
      [barcode p cells dim_max m]   the specification: pivots of the certified reduction of the boundary matrix over Z_p,
                         as (dimension, birth value, death value | None), minus the intervals with death - birth <= m and the
@@ -35,28 +36,28 @@ Print Assumptions C02_oracle_canonical.
 
 (* ------------------------------------------------------------------ (b) invariants of the algorithm, every complex, every prime *)
 (* each simplex occurs at most once in the pair list (as a birth or as a death) *)
-Theorem C02_paired_at_most_once : forall p, prime p -> p < 65536 -> forall cells, valid cells -> forall flag m,
-  NoDup (pair_keys (pcoh (zp_ops p) cells flag m)).
+Theorem C02_paired_at_most_once : forall p, prime p -> p < 65536 -> forall cells, valid cells -> forall flag m sw,
+  NoDup (pair_keys (pcoh_gen sw (zp_ops p) cells flag m)).
 Proof. exact pcoh_paired_once. Qed.
 Print Assumptions C02_paired_at_most_once.
 
 (* birth precedes death in the filtration, the death simplex has one dimension more, the pair carries the characteristic *)
-Theorem C02_birth_before_death : forall p, prime p -> p < 65536 -> forall cells, valid cells -> forall flag m b d ch,
-  In (b, Some d, ch) (pcoh (zp_ops p) cells flag m) ->
+Theorem C02_birth_before_death : forall p, prime p -> p < 65536 -> forall cells, valid cells -> forall flag m sw b d ch,
+  In (b, Some d, ch) (pcoh_gen sw (zp_ops p) cells flag m) ->
   (b < d)%nat /\ (d < length cells)%nat /\ dim_of cells d = S (dim_of cells b) /\ ch = p.
 Proof. exact pcoh_order. Qed.
 Print Assumptions C02_birth_before_death.
 
-Theorem C02_essential_pairs : forall p, prime p -> p < 65536 -> forall cells, valid cells -> forall flag m b ch,
-  In (b, None, ch) (pcoh (zp_ops p) cells flag m) -> (b < length cells)%nat /\ ch = p.
+Theorem C02_essential_pairs : forall p, prime p -> p < 65536 -> forall cells, valid cells -> forall flag m sw b ch,
+  In (b, None, ch) (pcoh_gen sw (zp_ops p) cells flag m) -> (b < length cells)%nat /\ ch = p.
 Proof. exact pcoh_essential. Qed.
 Print Assumptions C02_essential_pairs.
 
 (* after every prefix of the filtration every coordinate of the annotation matrix is a cocycle of the current complex:
    the (signed) annotation of the boundary of every simplex inserted so far is the null vector *)
 Theorem C02_annotations_are_cocycles : forall p, prime p -> p < 65536 -> forall cells, valid cells ->
-  forall m pre suf dim_max, cells = pre ++ suf ->
-  let s := run (zp_ops p) cells dim_max m pre in
+  forall m sw pre suf dim_max, cells = pre ++ suf ->
+  let s := run sw (zp_ops p) cells dim_max m pre in
   forall t j, (t < length pre)%nat ->
     vget (bann (zp_ops p) (s_ann s) (dim_of cells t) (c_faces (nth t cells (mkcell 0 [] 0))) 0 []) j = 0.
 Proof. exact pcoh_cocycles. Qed.
@@ -65,8 +66,8 @@ Print Assumptions C02_annotations_are_cocycles.
 (* a non-zero coefficient of an annotation vector sits at a live class (a row of transverse_idx_) of the dimension of
    the annotated simplex, and is a canonical residue: killed classes have left every column *)
 Theorem C02_annotations_supported_on_live_classes : forall p, prime p -> p < 65536 -> forall cells, valid cells ->
-  forall m pre suf dim_max, cells = pre ++ suf ->
-  let s := run (zp_ops p) cells dim_max m pre in
+  forall m sw pre suf dim_max, cells = pre ++ suf ->
+  let s := run sw (zp_ops p) cells dim_max m pre in
   forall t j, vget (nth t (s_ann s) []) j <> 0 ->
     In j (map fst (s_rows s)) /\ dim_of cells j = dim_of cells t /\ 0 < vget (nth t (s_ann s) []) j < p.
 Proof. exact pcoh_support. Qed.
